@@ -29,12 +29,8 @@ fn _get_std_fds(redirects: &[Redirection]) -> (Option<RawFd>, Option<RawFd>) {
             let mut _fd_candidate = None;
 
             if item.2 == "&2" {
-                let (_fd_out, _fd_err) = _get_std_fds(&redirects[i+1..]);
-                if let Some(fd) = _fd_err {
-                    _fd_candidate = Some(fd);
-                } else {
-                    _fd_candidate = unsafe { Some(libc::dup(2)) };
-                }
+                // stdout goes where stderr points to at this moment
+                _fd_candidate = unsafe { Some(libc::dup(fd_err.unwrap_or(2))) };
             } else {  // 1> foo.log
                 let append = item.1 == ">>";
                 if let Ok(fd) = tools::create_raw_fd_from_file(&item.2, append) {
@@ -56,9 +52,8 @@ fn _get_std_fds(redirects: &[Redirection]) -> (Option<RawFd>, Option<RawFd>) {
             let mut _fd_candidate = None;
 
             if item.2 == "&1" {
-                if let Some(fd) = fd_out {
-                    _fd_candidate = unsafe { Some(libc::dup(fd)) };
-                }
+                // stderr goes where stdout points to at this moment
+                _fd_candidate = unsafe { Some(libc::dup(fd_out.unwrap_or(1))) };
             } else {  // 2>foo.log
                 let append = item.1 == ">>";
                 if let Ok(fd) = tools::create_raw_fd_from_file(&item.2, append) {
